@@ -2,7 +2,7 @@
    subsets, is symmetric in (n,m), and the float recurrence p_{n,m} (with the diagonal read through
    symmetry) is count / C(n+m,n).  Then UDist.PMF / UDist.CDF without ties, for every real u. *)
 From Coq Require Import List ZArith Lia Arith Bool QArith Qround Lqa.
-From MM Require Import Base.Num Base.GEComb Spec.Ucount Proofs.Ucount Model.Choose Model.Udist
+From MM Require Import Base.Num Base.GEComb Spec.Ucount Proofs.Ucount Model.GEChoose Model.Udist
   Proofs.Udist Proofs.UdistTied Proofs.UdistTable Proofs.UdistLaws.
 Import ListNotations.
 Open Scope Z_scope.
